@@ -13,8 +13,16 @@ var seq uint64
 // with the computation of the garbage collector's horizon.
 var horizonM sync.Mutex
 
+// Set raises the process-wide counter to s if it is lower. The counter is shared by every
+// database opened in the process: it must never stay below a number that some loaded version
+// already carries, whatever was opened before.
 func Set(s Seq) {
-	atomic.CompareAndSwapUint64(&seq, 0, uint64(s))
+	for {
+		cur := atomic.LoadUint64(&seq)
+		if cur >= uint64(s) || atomic.CompareAndSwapUint64(&seq, cur, uint64(s)) {
+			return
+		}
+	}
 }
 
 // LockHorizon is held by Begin while it draws a sequence number and registers the transaction,
